@@ -39,6 +39,12 @@ D_RECEIVED_DILATE = Boss.__dict__["D_received_dilate"].method
 
 ID = "C11"
 PROP_MODULES = ["WV.Props.C11"]
+# [deepConn] translation validation of the Connector's method bodies (tools/extract.py::extract_pyir_conn ->
+# WV/Gen/PyIRConn.lean, interpreter WV/Model/PyIR.lean): part of the check as soon as the module is installed
+import os as _os_conn
+if _os_conn.path.exists(_os_conn.path.join(_os_conn.path.dirname(_os_conn.path.dirname(_os_conn.path.dirname(
+        _os_conn.path.abspath(__file__)))), "lean", "WV", "Props", "PyIRConn_C11.lean")):
+    PROP_MODULES.append("WV.Props.PyIRConn_C11")
 NATIVE_DECIDE_MODULES = ["WV.Proofs.C11Cert"]
 TRUSTED = [
     "native_decide on the finite certificates in WV.Proofs.C11Cert (closed-and-safe reachable set of the two-sided control "
